@@ -79,7 +79,7 @@ theorem collect_eq_visitAll (get : Name → Option FragmentDef) :
     · simp only [h, if_false, envOfGet]
       cases get n with
       | none => simp
-      | some f => simp [FragClosure.collect]
+      | some f => simp
   | succ d ih =>
     intro ss names
     rw [FragClosure.collect]
